@@ -75,6 +75,8 @@ function mkWorld (opts = {}) {
   }
 
   function valueFor (path, k, depth, store) {
+    if (k === 'prototype' && /\.X\d*$/.test(path)) return protoObj(path + '.prototype')
+    if (k === 'prototype') return mkFn(path + '.' + k, 'str')
     if (/^s\d*$/.test(k)) return ' ⟦' + path + '.' + k + '⟧ '
     if (/^sk\d*$/.test(k)) return ' ⟦' + path + '.' + k + '⟧ '
     if (/^n\d*$/.test(k)) return null
@@ -89,11 +91,10 @@ function mkWorld (opts = {}) {
     if (/^fnum\d*$/.test(k)) return mkFn(path + '.' + k, 'num')
     if (/^id\d*$/.test(k)) return mkFn(path + '.' + k, 'id')
     if (/^cb\d*$/.test(k)) return mkFn(path + '.' + k, 'cb')
-    if (/^(f\d*|out|trim|trimStart|trimEnd|concat|substring|substr|slice|replace|replaceAll|join|split|at|toString|toUpperCase|toLowerCase|padStart|padEnd|repeat|charAt|indexOf|startsWith|normalize|aloneMethod|plusOperator|tplOperator)$/.test(k)) return mkFn(path + '.' + k, k === 'out' ? 'undef' : 'str')
+    if (/^(f\d*|out|trim|trimStart|trimEnd|concat|substring|substr|slice|replace|replaceAll|join|split|at|toString|toUpperCase|toLowerCase|padStart|padEnd|repeat|charAt|indexOf|startsWith|normalize|aloneMethod|plusOperator|tplOperator|default|class|call|apply|constructor|valueOf)$/.test(k)) return mkFn(path + '.' + k, k === 'out' ? 'undef' : 'str')
     if (/^arr\d*$/.test(k)) return [' ⟦' + path + '.' + k + '.0⟧ ', ' ⟦' + path + '.' + k + '.1⟧ ']
     if (k === 'length') return 2
     if (k === 'then') return undefined // never a thenable
-    if (k === 'prototype' && /\.X\d*$/.test(path)) return protoObj(path + '.prototype')
     if (depth < 3) return obj(path + '.' + k, depth + 1)
     return ' ⟦leaf:' + path + '.' + k + '⟧ '
   }
@@ -103,7 +104,8 @@ function mkWorld (opts = {}) {
       get (t, k) {
         if (typeof k === 'symbol') return undefined
         ev('get', path, k)
-        return opts.stringProto ? opts.stringProto[k] : String.prototype[k]
+        const v = opts.stringProto ? opts.stringProto[k] : String.prototype[k]
+        return typeof v === 'function' ? v : mkFn(path + '.' + k, 'str') // never undefined: calling through a missing prototype method is an error path outside C01's carve-outs
       }
     })
     ids.set(p, path)
